@@ -1021,6 +1021,10 @@ func (interp *Interpreter) cfg(root *node, sc *scope, importPath, pkgName string
 			wireChild(n)
 			if sc.def == nil && isGlobalDefine(n) {
 				// In global scope, type definition already handled by GTA.
+				if lc := n.lastChild(); lc.kind == indexExpr {
+					// Restore the generator set in GTA, overridden at CFG of the map index expression.
+					lc.gen = getIndexMap2
+				}
 				break
 			}
 			err = compDefineX(sc, n)
@@ -2596,7 +2600,11 @@ func compDefineX(sc *scope, n *node) error {
 		}
 
 	case indexExpr:
-		types = append(types, src.typ, sc.getType("bool"))
+		typ, err := defineXType(sc, src)
+		if err != nil {
+			return err
+		}
+		types = append(types, typ, sc.getType("bool"))
 		n.child[l].gen = getIndexMap2
 		n.gen = nop
 
@@ -2606,12 +2614,20 @@ func compDefineX(sc *scope, n *node) error {
 		} else {
 			n.child[l].gen = typeAssertLong
 		}
-		types = append(types, n.child[l].child[1].typ, sc.getType("bool"))
+		typ, err := defineXType(sc, n.child[l].child[1])
+		if err != nil {
+			return err
+		}
+		types = append(types, typ, sc.getType("bool"))
 		n.gen = nop
 
 	case unaryExpr:
 		if n.child[l].action == aRecv {
-			types = append(types, src.typ, sc.getType("bool"))
+			typ, err := defineXType(sc, src)
+			if err != nil {
+				return err
+			}
+			types = append(types, typ, sc.getType("bool"))
 			n.child[l].gen = recv2
 			n.gen = nop
 		}
@@ -2667,6 +2683,30 @@ func compDefineX(sc *scope, n *node) error {
 		n.child[i].findex = index
 	}
 	return nil
+}
+
+// defineXType returns the type of the first value of n, an operand of the right hand
+// side of a multiple definition: a map index, a receive expression or an asserted type.
+// This type is not set yet when the definition is processed in GTA (at package level).
+func defineXType(sc *scope, n *node) (*itype, error) {
+	if n.typ != nil {
+		return n.typ, nil
+	}
+	if n.kind != indexExpr && n.kind != unaryExpr {
+		return nodeType(n.interp, sc, n)
+	}
+	// The type of a map entry or of a received value is the element type of the operand.
+	typ, err := nodeType(n.interp, sc, n.child[0])
+	if err != nil {
+		return nil, err
+	}
+	switch typ = typ.resolveAlias(); {
+	case typ.cat == valueT && (typ.rtype.Kind() == reflect.Map || typ.rtype.Kind() == reflect.Chan):
+		return valueTOf(typ.rtype.Elem()), nil
+	case typ.cat == mapT || typ.cat == chanT || typ.cat == chanRecvT:
+		return typ.val, nil
+	}
+	return nil, n.cfgErrorf("assignment mismatch: 2 variables but 1 value")
 }
 
 // TODO used for allocation optimization, temporarily disabled
